@@ -230,7 +230,8 @@ def run_ucase(side: H.Side, desc: dict):
     else:
         ob = struct.pack('<Q', off)
     o = side.upload_attempt(src, fsz, ob, kbps=desc.get('kbps', 0), cut=desc.get('cut'), peer_closes=desc.get('pc', True),
-                            close_kind=desc.get('close', 'eof'), osplit=desc.get('osplit'), msg_mode=desc.get('msg'))
+                            close_kind=desc.get('close', 'eof'), osplit=desc.get('osplit'), msg_mode=desc.get('msg'),
+                            backpressure=desc.get('bp'))
     findings = []
     wit = {'kind': 'u', 'desc': desc}
     o_int = off if isinstance(off, int) else None
@@ -272,7 +273,7 @@ def run_pair(desc: dict):
     local0 = src[:desc['local0']] if desc.get('local0') is not None else None
     faults = [tuple(f) if f else None for f in desc.get('faults', [])]
     P = H.Pair(src, faults, kbps_down=desc.get('kbps_down', 0), kbps_up=desc.get('kbps_up', 0), local0=local0,
-               lat_p=desc.get('lat_p', 0.02), lat_f=desc.get('lat_f', 0.02))
+               lat_p=desc.get('lat_p', 0.02), lat_f=desc.get('lat_f', 0.02), bp=desc.get('bp'))
     findings = []
     wit = {'kind': 'p', 'desc': desc}
     try:
@@ -541,6 +542,12 @@ def gen_ucases(run: Run):
             off = rng.choice([0, 0, n // 3])
             out.append({'src': [rng.randrange(251), n], 'fsz': 'src', 'off': off, 'kbps': gen_kbps(rng), 'cut': cut, 'pc': rng.random() < 0.8,
                         'close': 'eof'})
+    # backpressure: the receiver is slow, the transport keeps what it could not send BY REFERENCE (as asyncio's
+    # selector transport does) and sends it later; every chunk must still leave as it was read
+    for n in [129, 8193, 3 * 8192 + 5]:
+        for kbps, bp in [(0, 0.05), (20, 0.5), (100, 3.0), (0, 0.0)]:
+            out.append({'src': [rng.randrange(251), n], 'fsz': 'src', 'off': rng.choice([0, 0, n // 3]), 'kbps': kbps, 'cut': None,
+                        'pc': True, 'close': 'eof', 'bp': bp})
     # the file connection breaks AND the message connection is broken / slow / gone as well: the failure
     # notification itself fails
     for n, cut in [(20000, 8192), (20000, 0), (300, 0), (24581, 16384)]:
@@ -591,6 +598,9 @@ def gen_pairs(run: Run):
     for n in ([1, 129, 8193] if run.tier != 'quick' else [129]):
         for l0 in sorted({0, n // 2, n}):
             out.append({'src': [rng.randrange(251), n], 'faults': [], 'local0': l0})
+    # slow receiver: the uploader's transport keeps unsent chunks by reference
+    for n, kd, ku, bp in [(3 * 8192 + 5, 20, 0, 0.3), (70000, 0, 0, 0.05)] + ([(70000, 50, 100, 1.0)] if run.tier != 'quick' else []):
+        out.append({'src': [rng.randrange(251), n], 'faults': [], 'kbps_down': kd, 'kbps_up': ku, 'bp': bp})
     # cuts
     ncut = 12 if run.tier == 'quick' else 200
     for _ in range(ncut):
@@ -637,7 +647,7 @@ def run(run: Run):
                 'resumed local files (empty / partial / already complete), delivery segmentations (one piece, byte by byte, grant-1/grant/grant+1, random), '
                 'unlimited and limited (128-byte grants) downloads; dishonest senders (fewer/more bytes than announced, bytes after a complete local file, '
                 'no size, huge size, offset not sendable); (b) upload attempts: offsets 0..n+1000 and >= 2^63, no/partial offset, write failures after k bytes, '
-                'peer closing by EOF/reset/never, wrong announced size, the 8 offset bytes split at every position, the failure notification raising / hanging / peer gone; '
+                'peer closing by EOF/reset/never, wrong announced size, the 8 offset bytes split at every position, the failure notification raising / hanging / peer gone, a slow receiver with a transport that keeps unsent chunks by reference; '
                 '(b2) one download negotiated twice at once (two requests back to back, a file connection per ticket, overlapping receptions); (c) two real clients with cuts on the file connection. '
                 'distinct = distinct case description; non-trivial = at least one fault/dishonesty or more than one read')
     run.trusted += ['aiofiles runs on the inline executor of vlib.vloop (no thread interleavings)',
